@@ -140,6 +140,32 @@ def sc_default(B, C):
     return o
 
 
+def sc_means_only(B, C, D, steps):
+    """a machine that was only given means: `fit` starts from unit variances (the documented
+    fall-back), i.e. behaves as the machine whose variances were set to ones explicitly"""
+    gmm = B.mod("gmm")
+    mu0 = B.arr("mu0", (C, D))
+    X = B.arr("x", (2, D))
+    kw = dict(max_fitting_steps=steps, convergence_threshold=None, update_means=True, update_variances=True, update_weights=True)
+    m = gmm.GMMMachine(C, **kw)
+    m.means = B.copy(mu0)
+    m.fit(B.copy(X))
+    ref = gmm.GMMMachine(C, **kw)
+    ref.means = B.copy(mu0)
+    ref.variances = B.np.ones((C, D))
+    ref.fit(B.copy(X))
+    o = Outcome()
+    o.same("means-only/means", m.means, ref.means)
+    o.same("means-only/variances", m.variances, ref.variances)
+    o.same("means-only/weights", m.weights, ref.weights)
+    Y = B.arr("y", (1, D))
+    o.same("means-only/likelihood", m.log_likelihood(Y), ref.log_likelihood(Y))
+    if steps == 0:
+        P = dict(C=C, D=D, w=[1.0 / C] * C, mu=[[mu0[c, d] for d in range(D)] for c in range(C)], v=[[1.0] * D for c in range(C)])
+        o.equal("means-only/unit-variance-likelihood", m.log_likelihood(Y), [B.lse(o_comp(B, P, Y[0]))])
+    return o
+
+
 def job_redim(P, C, D):
     for pre in ((), ("read",), ("v",), ("thr-vector",)):
         for post in ((), ("read",), ("deepcopy",), ("w",)):
@@ -154,6 +180,8 @@ def job_ctor(P, C, D):
         P.run("ctor-weights-" + op, sc_history, dict(C=C, D=D, ops=(op,), kind="ml", ctor="weights"), validate=0)
     P.run("ctor-map", sc_history, dict(C=C, D=D, ops=(), kind="map"), validate=1)
     P.run("ctor-plain", sc_history, dict(C=C, D=D, ops=(), kind="ml"), validate=1)
+    for steps in (0, 1):
+        P.run("ctor-means-only-%d" % steps, sc_means_only, dict(C=C, D=D, steps=steps), validate=1)
 
 
 def jobs(tier):
